@@ -127,6 +127,50 @@ func (rc *restartCtx) stopAndRestart(clean bool) bool {
 		w.violate(rc.class+"/restart", "no appendonly.aof in the surviving directory: %v", err)
 		return false
 	}
+	if hc.lm.gen > 0 || inst.srv.shrinking {
+		// the log was rewritten (or is being rewritten): its bytes are no longer a prefix of what
+		// was appended. The recovered state must be the model after some prefix of the applied
+		// writes that contains every acknowledged one.
+		lo := 0
+		for i := range hc.lm.entries {
+			if strings.HasPrefix(hc.lm.entries[i].owner, "a") {
+				lo = i + 1
+			}
+		}
+		hi := len(hc.lm.entries)
+		if clean {
+			lo = hi
+		}
+		ni := n.start()
+		if ni.stopped || !ni.ready() {
+			w.violate(rc.class+"/restart", "server does not start on the surviving directory: %v", ni.serveErr)
+			return false
+		}
+		d := ni.dump()
+		var firstErr error
+		okk := false
+		for k := hi; k >= lo; k-- {
+			if e := compareDump(hc.lm.states[k], d, true); e == nil {
+				okk = true
+				break
+			} else if firstErr == nil {
+				firstErr = e
+			}
+		}
+		if !okk {
+			w.violate(rc.class+"/recovered", "after a log rewrite the recovered state is not the model after any prefix in [%d,%d] of the applied writes (every acknowledged write is within the first %d): %v", lo, hi, lo, firstErr)
+			return false
+		}
+		want, _, _, _ := modelFromLog(ni.aofStream(), w.now())
+		nhc := newHistChecker(w, ni, want, rc.class)
+		nhc.exact = hc.exact
+		rc.hc = nhc
+		// acknowledged writes up to here are covered by the state comparison; their text is
+		// no longer in the rewritten file
+		rc.acked = map[string]bool{}
+		w.stat("probe.restarts_verified_after_rewrite", 1)
+		return true
+	}
 	if clean {
 		// clean stop: everything applied is on disk
 		if !bytes.Equal(surv, stream) {
@@ -211,6 +255,9 @@ func runC03(w *World) {
 
 	nc := 1 + w.knob("clients", 3)
 	size := []int{6, 12, 25, 50}[w.knob("size", 4)]
+	// a quarter of the runs also rewrite the log while the clients write; those runs leave out
+	// the commands of the open C09 findings (RENAME/RENAMENX/JDEL during a rewrite)
+	withShrink := w.knob("shrink", 4) == 0
 	for i := 0; i < nc; i++ {
 		i := i
 		prog := w.program(fmt.Sprintf("p%d", i+1), func(r *rand.Rand) []Cmd {
@@ -226,13 +273,22 @@ func runC03(w *World) {
 				case x < 5:
 					p = append(p, scriptCmd(r, g))
 				default:
-					p = append(p, g.cmd(r))
+					c := g.cmd(r)
+					for withShrink && (strings.HasPrefix(strings.ToUpper(c.Args[0]), "RENAME") || strings.ToUpper(c.Args[0]) == "JDEL") {
+						c = g.cmd(r)
+					}
+					p = append(p, c)
 				}
 			}
 			return p
 		})
 		a := w.addActor(n, simAddr(fmt.Sprintf("127.0.0.1:%d", 50001+i)), prog)
 		a.onReply = func(op *Op) { rc.hc.onReply(op, a.end.c.name) }
+	}
+	if withShrink {
+		sh := w.addActor(n, "127.0.0.1:50090", []Cmd{{Args: []string{"AOFSHRINK"}}, {Args: []string{"AOFSHRINK"}}})
+		sh.weight = 1
+		sh.onReply = func(op *Op) {}
 	}
 	allDone := func() bool {
 		for _, a := range w.actors {
